@@ -1389,6 +1389,11 @@ def std(a, dim=None, unbiased=True, keepdim=False, correction=None):
     return var(a, dim, unbiased=unbiased, keepdim=keepdim, correction=correction).sqrt()
 
 
+@handles("rsqrt")
+def rsqrt(a):
+    return 1.0 / lift(a).sqrt()
+
+
 @handles("var_mean")
 def var_mean(a, dim=None, unbiased=True, keepdim=False, correction=None):
     return var(a, dim, unbiased=unbiased, keepdim=keepdim, correction=correction), mean(a, dim, keepdim=keepdim)
